@@ -80,13 +80,14 @@ Inductive finding :=
 | KfWriteAtAppend        (* WriteAt on an O_APPEND handle is carried out; os.File refuses it *)
 | KfClosedPriority       (* which error wins on a closed handle: offset / size validation versus closed *)
 | KfUnlinkDropsData      (* removing (or renaming over) the last name of a file open somewhere empties its data *)
-| KfRenameHardLinkAlias. (* Rename(a, b) where a and b name the same inode removes a; rename(2) does nothing *)
+| KfRenameHardLinkAlias  (* Rename(a, b) where a and b name the same inode removes a; rename(2) does nothing *)
+| KfPathTruncatePriority. (* Truncate(missing name, negative size): ENOENT; truncate(2) refuses the size first (EINVAL) *)
 
 Definition finding_id (k : finding) : N :=
   match k with
   | KfOpenModeFromOptions => 1 | KfAppendOpenOffset => 2 | KfZeroLenRead => 3 | KfZeroLenReadAt => 4
   | KfZeroLenWrite => 5 | KfZeroLenWriteAt => 6 | KfWriteAtAppend => 7 | KfClosedPriority => 8
-  | KfUnlinkDropsData => 9 | KfRenameHardLinkAlias => 10
+  | KfUnlinkDropsData => 9 | KfRenameHardLinkAlias => 10 | KfPathTruncatePriority => 11
   end%N.
 
 (* the rights a handle with OpenMode om really has, versus those of the access mode *)
@@ -177,6 +178,11 @@ Definition kf02 (st : fstate) (op : fop) : option finding :=
           else if drops_data st j then Some KfUnlinkDropsData else None
       | _, _ => None
       end
+  | PTruncate name size =>
+      match lookup_name st name with
+      | None => if Z.ltb size 0 then Some KfPathTruncatePriority else None
+      | Some _ => None
+      end
   | _ => None
   end.
 
@@ -242,4 +248,65 @@ Definition impl_dcall (hi : nat) (op : dop) : call :=
   | DRewind => FSeek hi 0 0
   | DRead n => FRead hi n
   | DClose => FClose hi
+  end.
+
+(* ---- OrefaFS ----------------------------------------------------------------------- *)
+(* OrefaFile (vfs/orefafs/orefafs_file.go) is MemFile with other lock modes and type tests; the one
+   difference in behaviour is the order of two tests in Truncate (closed before size < 0).
+   OrefaFS.Rename (orefafs.go:769) never touches a link counter and never releases the data of a
+   replaced file, and returns nil at once when both names are the same.  Modelled here for the
+   flat directory the C02 histories use (existing parent directories, regular files). *)
+Definition orefa_rename (s : fsys) (v : view) (old new : str) : fsys * res :=
+  if str_eqb (abs (v_os v) (v_cwd v) old) (abs (v_os v) (v_cwd v) new) then (s, ROk)
+  else
+    let ro := search_node s v old SlLstat in
+    let rn := search_node s v new SlLstat in
+    if negb (is_file_exists (sr_err ro)) then (s, RFail ENoSuchFile)
+    else if negb (is_file_exists (sr_err rn)) && negb (is_not_exist (sr_err rn) && pi_is_last (sr_pi rn))
+    then (s, RFail ENoSuchFile)
+    else
+      match sr_parent ro, sr_child ro, sr_parent rn with
+      | Some op, Some oc, Some np =>
+          let h := f_heap s in
+          let tgt_dir := match sr_child rn with
+                         | Some nc => if is_file_exists (sr_err rn) then node_is_dir h nc else false
+                         | None => false
+                         end in
+          if (node_is_dir h oc && is_file_exists (sr_err rn)) || tgt_dir then (s, RFail EFileExists)
+          else (with_heap s (remove_child (add_child h np (pi_part (sr_pi rn)) oc) op (pi_part (sr_pi ro))), ROk)
+      | _, _, _ => (s, RFail ENoSuchFile)
+      end.
+
+Definition handle_closed (w : world) (hi : nat) : bool :=
+  match nth_error (w_handles w) hi with
+  | Some f => match hd_node f with None => true | Some _ => false end
+  | None => false
+  end.
+
+Definition orefa_step (w : world) (op : fop) : world * res :=
+  match op with
+  | Ftruncate fd size => if handle_closed w fd then wstep w (FTruncate fd 0) else wstep w (FTruncate fd size)
+  | PRename old new => on_view w 0 (fun v => lift w (orefa_rename (w_fs w) v (fpath old) (fpath new)))
+  | _ => wstep w (impl_call op)
+  end.
+
+(* rename(2) over an existing file drops one link of the replaced inode; OrefaFS leaves its counter alone *)
+Definition still_visible (st : fstate) (j : nat) : bool :=
+  open_on st j || match nth_error (st_inodes st) j with Some ino => Z.ltb 1 (i_nlink ino) | None => false end.
+
+Inductive ofinding :=
+| OKf (k : finding)
+| OKfRenameKeepsLinkCount.   (* OrefaFS.Rename over an existing file: the replaced inode keeps its link count *)
+
+Definition kf02_orefa (st : fstate) (op : fop) : option ofinding :=
+  match op with
+  | Ftruncate _ _ => None
+  | PRename old new =>
+      match lookup_name st old, lookup_name st new with
+      | Some i, Some j =>
+          if Nat.eqb i j then (if str_eqb old new then None else Some (OKf KfRenameHardLinkAlias))
+          else if still_visible st j then Some OKfRenameKeepsLinkCount else None
+      | _, _ => None
+      end
+  | _ => option_map OKf (kf02 st op)
   end.
